@@ -269,17 +269,28 @@ decreasing_by simp only [List.length_drop]; omega
 def keystream (ks : Bytes → Nat → UInt8) (nonce : Bytes) (n : Nat) : Bytes :=
   (List.range n).map (ks nonce)
 
-/-- `salsa20BlockCrypt.Encrypt(dst, src)` (as in the source: the short branch `len(src) < 8`
-returns without touching `dst` — defect D4) -/
+/-- `salsa20BlockCrypt.Encrypt(dst, src)`:
+`if len(src) < 8 { copy(dst, src); return }; XORKeyStream(dst[8:], src[8:], src[:8], key);
+if &dst[0] != &src[0] { copy(dst[:8], src[:8]) }` -/
 def salsaEncrypt (ks : Bytes → Nat → UInt8) (src dst : Bytes) (alias : Bool) : Bufs :=
   let m : Bufs := { src := src, dst := dst, alias := alias }
-  if src.length < 8 then m
+  if src.length < 8 then m.write 0 src
   else
     let m1 := m.write 8 (xorB (src.drop 8) (keystream ks (src.take 8) (src.length - 8)))
     if alias then m1 else m1.write 0 (m1.src.take 8)
 
-/-- `salsa20BlockCrypt.Decrypt(dst, src)` (same body) -/
+/-- `salsa20BlockCrypt.Decrypt(dst, src)` (same body as `Encrypt`) -/
 def salsaDecrypt (ks : Bytes → Nat → UInt8) (src dst : Bytes) (alias : Bool) : Bufs :=
+  let m : Bufs := { src := src, dst := dst, alias := alias }
+  if src.length < 8 then m.write 0 src
+  else
+    let m1 := m.write 8 (xorB (src.drop 8) (keystream ks (src.take 8) (src.length - 8)))
+    if alias then m1 else m1.write 0 (m1.src.take 8)
+
+/-- the salsa20 shell BEFORE the repair of defect D4 (`Encrypt` and `Decrypt` had this same
+body): the short branch `len(src) < 8` returned without touching `dst`.  Kept only for the
+recorded counterexample `C08_salsa_short_counterexample_prerepair`. -/
+def salsaCryptPreRepair (ks : Bytes → Nat → UInt8) (src dst : Bytes) (alias : Bool) : Bufs :=
   let m : Bufs := { src := src, dst := dst, alias := alias }
   if src.length < 8 then m
   else
